@@ -742,4 +742,19 @@ theorem allOKb_sound {w : World} {evs : List Event} (h : allOKb w evs = true) : 
     simp only [allOKb, Bool.and_eq_true] at h
     exact ⟨evOKb_sound h.1, ih h.2⟩
 
+/-- the equations of `WInv` as executable checks (evaluated by the driver on the co-simulated
+histories: L1, L2, N2, F1, N1, P2) -/
+def winvChecks (w : World) (g : WGhost) : List Bool :=
+  let X := w.c.config.lstDenom
+  let D := w.c.config.proto.ibcDenom
+  let S := w.c.config.native.staker
+  [ (w.supply X : Int) + g.rebaseL == w.c.st.totalLst,
+    w.bal w.self X == pendTotal w.c + refundableSum w.c X + g.donL,
+    (w.bal w.self D : Int) + g.swept + g.paid == owedD w.c + g.donD,
+    locW S D w.pkts + locC S D w.c == g.fwd,
+    (w.c.st.totalNative : Int) + g.setAside + g.swept == g.fwd + g.rebaseN,
+    w.pkts.all (fun p => p.state != .pending ||
+      (p.channel == w.c.config.proto.channel &&
+       w.c.inflight.find? p.seq == some { seq := p.seq, coin := p.coin, receiver := p.receiver, status := .sent })) ]
+
 end MW.Chain
